@@ -248,6 +248,12 @@ class IRGenerator:
     default_env = Environment(
         **{data_type.__name__: data_type for data_type in data_types})
 
+    # The constructor signatures of the built-in types, taken once: taken
+    # while a deeply nested type reference is resolved, `inspect` can run out
+    # of stack and reports that as a TypeError instead of a RecursionError.
+    _init_argspecs = {data_type: get_args(data_type.__init__)
+                      for data_type in data_types}
+
     # FIXME: Version should not have a default.
     def __init__(self, partial_asts, version, debug=False, route_whitelist_filter=None):
         """Creates a new tower of stone.
@@ -1199,9 +1205,11 @@ class IRGenerator:
         assert issubclass(data_type_class, DataType), \
             'Expected stone.data_type.DataType, got %r' % data_type_class
 
-        argspec = get_args(data_type_class.__init__)  # noqa: E501 # pylint: disable=deprecated-method,useless-suppression
-        argspec.args.remove('self')
-        num_args = len(argspec.args)
+        argspec = self._init_argspecs.get(data_type_class)
+        if argspec is None:
+            argspec = get_args(data_type_class.__init__)  # noqa: E501 # pylint: disable=deprecated-method,useless-suppression
+        arg_names = [arg for arg in argspec.args if arg != 'self']
+        num_args = len(arg_names)
         # Unfortunately, argspec.defaults is None if there are no defaults
         num_defaults = len(argspec.defaults or ())
 
@@ -1211,7 +1219,7 @@ class IRGenerator:
             # Report if a positional argument is missing
             raise InvalidSpec(
                 'Missing positional argument %s for %s type' %
-                (quote(argspec.args[len(pos_args)]),
+                (quote(arg_names[len(pos_args)]),
                  quote(data_type_class.__name__)),
                 *loc)
         elif (num_args - num_defaults) < len(pos_args):
@@ -1223,7 +1231,7 @@ class IRGenerator:
 
         # Map from arg name to bool indicating whether the arg has a default
         args = {}
-        for i, key in enumerate(argspec.args):
+        for i, key in enumerate(arg_names):
             args[key] = (i >= num_args - num_defaults)
 
         for key in kw_args:
